@@ -95,6 +95,28 @@ pub fn threshold_family(n: usize) -> Vec<Vec<Node>> {
     let mut ps2: Vec<Node> = (0..n).map(|_| el("p", vec![leaf("c")])).collect();
     ps2.push(el("p", vec![]));
     out.push(vec![el("r", ps2)]);
+    // attribute lists of length n: shared prefix + new attributes, reversed order, a single shared attribute first
+    if n <= 1100 {
+        let with_attrs = |attrs: Vec<String>| Node { name: "p".to_string(), attrs, items: vec![] };
+        let names = |k: usize| -> Vec<String> { (0..k).map(|i| format!("a{}", i)).collect() };
+        let mut longer = names(n);
+        longer.push("zz".to_string());
+        out.push(vec![el("r", vec![with_attrs(vec!["a0".to_string()]), with_attrs(longer.clone())])]);
+        out.push(vec![el("r", vec![with_attrs(names(n)), with_attrs(longer.clone())])]);
+        let mut rev = names(n);
+        rev.reverse();
+        out.push(vec![el("r", vec![with_attrs(names(n)), with_attrs(rev)])]);
+        out.push(vec![el("r", vec![with_attrs(longer), with_attrs(names(n / 2))])]);
+        // n distinct children under one parent, then a second occurrence with one more / one less
+        let kids = |k: usize| -> Vec<Node> { (0..k).map(|i| leaf(&format!("k{}", i))).collect() };
+        let mut more = kids(n);
+        more.push(leaf("zz"));
+        out.push(vec![el("r", vec![el("p", kids(n)), el("p", more)])]);
+        out.push(vec![el("r", vec![el("p", kids(n)), el("p", kids(n.saturating_sub(1)))])]);
+        let mut twice = kids(n);
+        twice.extend(kids(n));
+        out.push(vec![el("r", vec![el("p", twice)])]);
+    }
     out
 }
 
